@@ -124,11 +124,7 @@ func registerVrt(w *World) {
 		depth := cint(in, args[1])
 		u := uint32(cint(in, args[2]))
 		cu := uint32(cint(in, args[3]))
-		in.spec.rootU, in.spec.childU = u, cu
-		if cu == 0 {
-			in.spec.childU = u
-		}
-		l := in.newLazy(name, depth, u)
+		l := in.newLazy(name, depth, u, cu)
 		in.Draws = append(in.Draws, &Draw{Kind: "doc", Name: name, V: l})
 		return l
 	}
@@ -268,6 +264,17 @@ func registerVrt(w *World) {
 		s := &StrV{Num: nt}
 		in.Draws = append(in.Draws, &Draw{Kind: "jnum", Name: name, S: s})
 		return s
+	}
+	// vrtKnown(id, inRegion): marks the path as lying inside the input region of
+	// a recorded known finding; violations on such paths are attributed to it.
+	w.Stubs[p+"vrtKnown"] = func(in *Interp, fn *ssa.Function, args []Value) Value {
+		id := cstr(in, args[0])
+		c := args[1].(*Term)
+		if in.branch(c) {
+			in.noteList = append(in.noteList, "known:"+id)
+			return True
+		}
+		return False
 	}
 	w.Stubs[p+"vrtSameObject"] = func(in *Interp, fn *ssa.Function, args []Value) Value {
 		return BoolC(sameObject(args[0], args[1]))
